@@ -1,9 +1,80 @@
-/- C10 driver: not written yet -/
+/-
+  C10 driver: replays the segment lists the real `Contours::collect` was given
+  (harness/contours.cpp, lines `collect <id> in <n> a b ... out <k> {<len> v ...}`) through the
+  model `Libfive.Contours.collect` and compares the polylines:
+    ok exact   — identical lists of polylines (same order, same starting points)
+    ok cyclic  — equal as multisets of cyclic sequences (closed polylines up to rotation)
+    MISMATCH   — anything else
+  Lines `load <A> <m0> <m1> ...` (harness --loads) are compared with `Libfive.Marching2.load`.
+  It also evaluates the hypotheses and the conclusion of `collect_closed` on the real data
+  (`pre=` degree precondition, `closed=` all real polylines closed, `part=` real polylines use
+  every input segment exactly once).
+-/
+import LibfiveModel.Contours
+import Generated.Marching2
 import Driver.Parse
+open Libfive.Contours
 
 namespace Driver.C10
 
+def parsePairs : List Nat → List (Nat × Nat)
+  | a :: b :: rest => (a, b) :: parsePairs rest
+  | _ => []
+
+def parsePolys : Nat → List Nat → List (List Nat)
+  | 0, _ => []
+  | _, [] => []
+  | k + 1, len :: rest => rest.take len :: parsePolys k (rest.drop len)
+
+def lexLe (a b : List Nat) : Bool := !lexLt b a
+
+def segLe (a b : Nat × Nat) : Bool := a.1 < b.1 || (a.1 == b.1 && a.2 ≤ b.2)
+
+def canonSet (ps : List (List Nat)) : List (List Nat) :=
+  (ps.map canonCycle).mergeSort lexLe
+
+def showPolys (ps : List (List Nat)) : String :=
+  String.intercalate " | " (ps.map fun p => String.intercalate " " (p.map toString))
+
+/-- the tables of the running library, as regenerated for this run -/
+def T : Libfive.Marching2.Tables :=
+  { v := Generated.Marching2.v, e := Generated.Marching2.e, p := Generated.Marching2.p,
+    axisX := Generated.Marching2.axisX, axisY := Generated.Marching2.axisY }
+
+def showLoad : Option ((Nat × Int) × (Nat × Int)) → String
+  | none => "none"
+  | some (s, d) => s!"{s.1} {s.2} {d.1} {d.2}"
+
+def handle (line : String) : Option String :=
+  match words line with
+  | "load" :: a :: m0 :: m1 :: rest =>
+    -- real DCContourer::load<A> on two level-0 leaves vs the model (index 0: equal levels)
+    let model := Libfive.Marching2.load T (nat! a) 0 (nat! m0) (nat! m1)
+    let cons := Libfive.Marching2.consistent T (nat! a) (nat! m0) (nat! m1)
+    let real := String.intercalate " " (rest.take (if rest.head? == some "none" then 1 else 4))
+    if !cons then some s!"MISMATCH load case {a}-{m0}-{m1} harness fed an inconsistent pair"
+    else if showLoad model == real then some s!"ok load case {a}-{m0}-{m1} {real}"
+    else some s!"MISMATCH load case {a}-{m0}-{m1} model= {showLoad model} real= {real}"
+  | "collect" :: id :: "in" :: n :: rest =>
+    let n := nat! n
+    let nums := rest.map nat!
+    let segs := parsePairs (nums.take (2 * n))
+    match rest.drop (2 * n) with
+    | "out" :: k :: orest =>
+      let real := parsePolys (nat! k) (orest.map nat!)
+      let model := collect segs
+      let pre := degreeOK segs
+      let cl := real.all closed
+      let part := ((real.flatMap pairs).mergeSort segLe) == (segs.mergeSort segLe)
+      let info := s!"case {id} n={n} k={real.length} pre={if pre then 1 else 0} closed={if cl then 1 else 0} part={if part then 1 else 0}"
+      if model == real then some s!"ok exact {info}"
+      else if canonSet model == canonSet real then some s!"ok cyclic {info}"
+      else some s!"MISMATCH collect {info} model= {showPolys model} real= {showPolys real}"
+    | _ => some s!"MISMATCH parse case {id}"
+  | "collect" :: id :: _ => some s!"skip case {id} malformed"
+  | _ => none
+
 def run (_args : List String) (lines : Array String) : Array String :=
-  #[s!"MISMATCH driver-not-implemented {lines.size}"]
+  lines.filterMap handle
 
 end Driver.C10
